@@ -384,4 +384,101 @@ theorem runSched_all_success (cvt : Int → Nat) (idOf : Nat → String)
             rw [get_set_ne _ _ _ _ (fun e => hcc (hinj _ _ e).symm)]
             exact hinv c' k' hc'
 
+/-! ### steps only move forward -/
+
+def Step.rank : Step → Nat
+  | .t01 => 1 | .t02 => 2 | .t03 => 3 | .t04 => 4 | .t05 => 5 | .t06 => 6 | .t07 => 7
+  | .t08 => 8 | .t09 => 9 | .t10 => 10 | .t11 => 11 | .fin => 12
+
+/-- how far the client `cid` has come (0 = not registered) -/
+def rankOf (st : CertState) (cid : String) : Nat :=
+  match st.get cid with
+  | some k => k.rank
+  | none => 0
+
+theorem rank_next_ge (k : Step) : k.rank ≤ k.next.rank := by cases k <;> decide
+
+theorem rank_next_gt (k : Step) (h : k ≠ .fin) : k.rank < k.next.rank := by
+  cases k <;> first | decide | exact absurd rfl h
+
+/-- what one call can do to the table: nothing, register the fresh id at `Test01`,
+    or move a registered id from its step to the next one -/
+theorem certHandle_state_cases (cvt : Int → Nat) (st : CertState) (fresh : String) (req : Request) :
+    (certHandle cvt st fresh req).1 = st ∨ (certHandle cvt st fresh req).1 = st.set fresh .t01 ∨
+    ∃ cid k, st.get cid = some k ∧ (certHandle cvt st fresh req).1 = st.set cid k.next := by
+  unfold certHandle
+  by_cases hs : req.method = startMethod
+  · by_cases ho : startOk req = true
+    · rw [if_pos hs, if_pos ho]; exact Or.inr (Or.inl rfl)
+    · rw [if_pos hs, if_neg ho]; exact Or.inl rfl
+  · rw [if_neg hs]
+    cases hk : stepOfMethod req.method with
+    | none => exact Or.inl rfl
+    | some k =>
+      dsimp only
+      cases hp : req.parameters with
+      | none => exact Or.inl rfl
+      | some p =>
+        dsimp only
+        cases hd : decode cvt k.argsTy p with
+        | none => exact Or.inl rfl
+        | some args =>
+          dsimp only
+          cases hc : clientIdOf args with
+          | none => exact Or.inl rfl
+          | some cid =>
+            dsimp only
+            cases hcc : checkClientId st cid k with
+            | none => exact Or.inl rfl
+            | some st' =>
+              dsimp only
+              have h := checkClientId_some hcc
+              refine Or.inr (Or.inr ⟨cid, k, h.1, ?_⟩)
+              by_cases hm : (modeOk k.mode req && TVal.teq (k.wants cid) args) = true
+              · simp only [hm, if_true]; exact h.2
+              · simp only [hm]; exact h.2
+
+theorem rankOf_set_same (st : CertState) (id : String) (k : Step) : rankOf (st.set id k) id = k.rank := by
+  simp [rankOf, get_set_same]
+
+theorem rankOf_set_ne (st : CertState) (id x : String) (k : Step) (h : id ≠ x) :
+    rankOf (st.set id k) x = rankOf st x := by
+  simp [rankOf, get_set_ne _ _ _ _ h]
+
+/-- no call moves a client backwards, as long as its id is not handed out again -/
+theorem rankOf_mono (cvt : Int → Nat) (st : CertState) (fresh : String) (req : Request) (cid : String)
+    (hf : fresh ≠ cid) : rankOf st cid ≤ rankOf (certHandle cvt st fresh req).1 cid := by
+  rcases certHandle_state_cases cvt st fresh req with h | h | ⟨c, k, hg, h⟩
+  · rw [h]; exact Nat.le_refl _
+  · rw [h, rankOf_set_ne _ _ _ _ hf]; exact Nat.le_refl _
+  · rw [h]
+    by_cases hc : c = cid
+    · subst hc
+      rw [rankOf_set_same]
+      simp only [rankOf, hg]
+      exact rank_next_ge k
+    · rw [rankOf_set_ne _ _ _ _ hc]; exact Nat.le_refl _
+
+/-- the states a sequential history of calls goes through: (state before, request) per call -/
+def statesBefore (cvt : Int → Nat) : CertState → List (String × Request) → List (CertState × Request)
+  | _, [] => []
+  | st, (fresh, req) :: rest => (st, req) :: statesBefore cvt (certHandle cvt st fresh req).1 rest
+
+theorem rankOf_mono_hist (cvt : Int → Nat) (cid : String) :
+    ∀ (hist : List (String × Request)) (st : CertState), (∀ e ∈ hist, e.1 ≠ cid) →
+      ∀ sr ∈ statesBefore cvt st hist, rankOf st cid ≤ rankOf sr.1 cid := by
+  intro hist
+  induction hist with
+  | nil => intro st _ sr h; simp [statesBefore] at h
+  | cons e rest ih =>
+    obtain ⟨fresh, req⟩ := e
+    intro st hf sr h
+    simp only [statesBefore, List.mem_cons] at h
+    cases h with
+    | inl h => rw [h]; exact Nat.le_refl _
+    | inr h =>
+      have h1 := rankOf_mono cvt st fresh req cid (hf (fresh, req) List.mem_cons_self)
+      have h2 := ih _ (fun e he => hf e (List.mem_cons_of_mem _ he)) sr h
+      exact Nat.le_trans h1 h2
+
 end VV
